@@ -47,16 +47,16 @@ def check(ctx):
     ok = ok and bool(find("new_partitions_boundaries = self._partitions_boundaries", lay))
     ctx.ob("ABS.fewer.tiling", lay, "output i = _concat of input partitions range(b[i], b[i+1]) over consecutive boundary pairs", ok, "" if ok else "the runs of input partitions overlap, leave gaps or are reordered")
     cb = fewer.own_methods["_compute_partition_boundaries"]
-    ok = bool(find("npartitions_ratio = n_old_partitions / n_new_partitions", cb)) and bool(find("new_partitions_boundaries = [int(new_partition_index * npartitions_ratio) for new_partition_index in range(n_new_partitions + 1)]", cb)) and any(unparse(r.value) == "_clean_new_division_boundaries(new_partitions_boundaries, n_old_partitions)" for r in returns(cb))
+    ok = bool(find("npartitions_ratio = n_old_partitions / n_new_partitions", cb)) and bool(find("new_partitions_boundaries = [int(new_partition_index * npartitions_ratio) for new_partition_index in range(n_new_partitions + 1)]", cb)) and (all(unparse(r.value) == "_clean_new_division_boundaries(new_partitions_boundaries, n_old_partitions)" for r in returns(cb)) and bool(returns(cb)))
     ctx.ob("ABS.fewer.boundaries", cb, "boundaries = int(i * old / new) for i in range(new + 1), then cleaned", ok)
     cl = model.module(RP).func("_clean_new_division_boundaries")
     ok = bool(find("new_partitions_boundaries.insert(0, 0)", cl)) and bool(find("new_partitions_boundaries[-1] = frame_npartitions", cl)) and any(unparse(n.test) == "new_partitions_boundaries[0] > 0" for n in walk_no_nested(cl) if isinstance(n, ast.If)) and any(unparse(n.test) == "new_partitions_boundaries[-1] < frame_npartitions" for n in walk_no_nested(cl) if isinstance(n, ast.If))
     ctx.ob("ABS.fewer.boundaries.clean", cl, "boundaries are made to start at 0 and to end at the input partition count", ok)
     dv = fewer.own_methods["_divisions"]
-    ok = any(unparse(r.value) == "tuple((self.frame.divisions[i] for i in self._partitions_boundaries))" for r in returns(dv))
+    ok = (all(unparse(r.value) == "tuple((self.frame.divisions[i] for i in self._partitions_boundaries))" for r in returns(dv)) and bool(returns(dv)))
     ctx.ob("ABS.fewer.divisions", dv, "divisions = the input divisions at the boundaries", ok)
     pb = fewer.own_methods["_partitions_boundaries"]
-    ok = any(unparse(r.value) == "self._compute_partition_boundaries(npartitions, npartitions_input)" for r in returns(pb)) and bool(find("npartitions = self.new_partitions", pb)) and bool(find("npartitions_input = self.frame.npartitions", pb))
+    ok = (all(unparse(r.value) == "self._compute_partition_boundaries(npartitions, npartitions_input)" for r in returns(pb)) and bool(returns(pb))) and bool(find("npartitions = self.new_partitions", pb)) and bool(find("npartitions_input = self.frame.npartitions", pb))
     ctx.ob("ABS.fewer.boundaries.args", pb, "_compute_partition_boundaries(new, old) in that order", ok)
     # ---------------- more
     ns = more.own_methods["_nsplits"]
@@ -72,14 +72,14 @@ def check(ctx):
     ok = bool(find("dsk[new_name, j] = (df._name, i)", ml)) and bool(find("dsk[split_name, i] = (split_evenly, (df._name, i), k)", ml)) and bool(find("dsk[new_name, j] = (getitem, (split_name, i), jj)", ml)) and any(isinstance(l, ast.For) and unparse(l.iter) == "range(k)" and unparse(l.target) == "jj" for l in ast.walk(ml)) and any(isinstance(l, ast.For) and unparse(l.iter) == "enumerate(nsplits)" for l in ast.walk(ml))
     ctx.ob("ABS.more.pieces", ml, "partition i is passed through (k == 1) or cut into pieces 0..k-1 of split_evenly, emitted in order", ok)
     md = more.own_methods["_divisions"]
-    ok = any(unparse(r.value) == "(None,) * (1 + sum(self._nsplits))" for r in returns(md))
+    ok = (all(unparse(r.value) == "(None,) * (1 + sum(self._nsplits))" for r in returns(md)) and bool(returns(md)))
     ctx.ob("ABS.more.divisions", md, "1 + sum(nsplits) unknown divisions", ok)
     se = model.module(DC).func("split_evenly")
-    ok = bool(find("divisions = np.linspace(0, len(df), k + 1).astype(int)", se)) and any(unparse(r.value) == "{i: df.iloc[divisions[i]:divisions[i + 1]] for i in range(k)}" for r in returns(se))
+    ok = bool(find("divisions = np.linspace(0, len(df), k + 1).astype(int)", se)) and (all(unparse(r.value) == "{i: df.iloc[divisions[i]:divisions[i + 1]] for i in range(k)}" for r in returns(se)) and bool(returns(se)))
     ctx.ob("ABS.more.split-evenly", se, "split_evenly: piece i = rows [d[i], d[i+1]) with d = linspace(0, len, k + 1)", ok, "" if ok else "the pieces of a partition overlap, leave rows out or are mis-numbered")
     # ---------------- divisions
     dd = divs.own_methods["_divisions"]
-    ok = any(unparse(r.value) == "self.new_divisions" for r in returns(dd))
+    ok = (all(unparse(r.value) == "self.new_divisions" for r in returns(dd)) and bool(returns(dd)))
     ctx.ob("DELEG.divisions", dd, "RepartitionDivisions._divisions = the requested divisions", ok)
 
 
